@@ -373,6 +373,11 @@ DOMNode *DOMParentNode::removeChild(DOMNode *oldChild)
 
 DOMNode *DOMParentNode::replaceChild(DOMNode *newChild, DOMNode *oldChild)
 {
+    // insertBefore() takes a null reference node as a request to append,
+    // so a missing oldChild has to be refused before anything is moved
+    if (oldChild == 0)
+        throw DOMException(DOMException::NOT_FOUND_ERR, 0, GetDOMParentNodeMemoryManager);
+
     insertBefore(newChild, oldChild);
     // changed() already done.
     return removeChild(oldChild);
